@@ -29,6 +29,10 @@ def run(ck):
         if r.violated != 'SlicingInvariant':
             raise vlib.Infra('%s no longer shows the defect it pins (model drifted)' % cfg)
     files = sys_common.record(ck, ck.pick(16, 32), ck.pick(6, 30))
+    # programs that idle or poll while the audio ports run (full / over-full / partly filled queues, short periods): the run
+    # loop fast-forwards through Btdmp::GetMaxSkip / Skip and the timers at once; mailbox and DMA traffic from the handlers
+    files += sys_common.record(ck, ck.pick(6, 16), ck.pick(6, 16), tag='aud', mode='audio', seedoff=300)
+    files += sys_common.record(ck, ck.pick(4, 12), ck.pick(4, 12), tag='sio', mode='io', seedoff=600)
     sys_common.validate(ck, files)
     ck.sample_lines(files[0], 1, skip=2)
     ck.assumptions += sys_common.SYS_ASSUMPTIONS + [
